@@ -24,4 +24,5 @@ YaReq == {"req"}
 J1 == {"op"}
 J3 == {"op", "inport", "unicast"}
 JAll == {"op", "notype", "sport", "dport", "unicast", "inport", "discover", "request", "arp", "short"}
+JSim == {"op", "notype", "unicast", "inport", "short"}
 ====
